@@ -401,6 +401,14 @@ def apply_dsl(I, f, args, kwargs, node):
         a = z3.BoolVal(a) if isinstance(a, bool) else a
         b = z3.BoolVal(b) if isinstance(b, bool) else b
         return I.wrap_bool(z3.Implies(a, b))
+    if nm == 'case_split':
+        # proof hint: one path per value of the term inside the autosplit range (range membership is checked)
+        saved = I.pure
+        I.pure = 0
+        try:
+            return I.concretize(I.int_term(args[0]), 'case_split value')
+        finally:
+            I.pure = saved
     if nm in ('requires', 'ensures', 'invariant', 'raises', 'decreases', 'modifies', 'split', 'bv',
               'assume_builtin'):
         return None
